@@ -549,8 +549,16 @@ impl Wal {
             return Err(Error::WalProtocol("wal file is closed"));
         };
         if file.metadata()?.len() > valid_len {
+            #[cfg(nervusdb_verif)]
+            crate::verif_hooks::io_before("set_len", "wal.truncate_tail", Some(&*file), None)?;
             file.set_len(valid_len)?;
+            #[cfg(nervusdb_verif)]
+            crate::verif_hooks::io_after("set_len", "wal.truncate_tail", Some(&*file), None);
+            #[cfg(nervusdb_verif)]
+            crate::verif_hooks::io_before("sync", "wal.truncate_tail.sync", Some(&*file), None)?;
             file.sync_data()?;
+            #[cfg(nervusdb_verif)]
+            crate::verif_hooks::io_after("sync", "wal.truncate_tail.sync", Some(&*file), None);
         }
         Ok(())
     }
